@@ -1,4 +1,5 @@
 import LanceModel.C42.BridgeLemmas
+import LanceModel.C42.CloneLemmas
 import LanceModel.C01.Props
 /-
 C42 — A copied table root is a complete, identical table.
@@ -218,6 +219,26 @@ theorem copied_history_opens (cfg : C01.Cfg) (ops : List HOp) (root root' : Root
     rw [hst] at hm ⊢
     exact (C01.published_closed cfg (progsOf ops) v hv m hm).2
 
+/-- **copied_history_tags.**  … with the same tags: `Tags::list` of the copy is the tag list of the history, `Tags::get`
+    answers what was tagged, and checking out BY TAG reads, through the copy, what C01's reader reads of that version. -/
+theorem copied_history_tags (cfg : C01.Cfg) (ops : List HOp) (root root' : Root) :
+    tagsAt (copy root root' (flatten root (runH cfg Tbl.empty ops))) root' = (runH cfg Tbl.empty ops).tags ∧
+      ∀ t, tagGet (copy root root' (flatten root (runH cfg Tbl.empty ops))) root' t =
+          tagLookup (runH cfg Tbl.empty ops).tags t ∧
+        readTag (copy root root' (flatten root (runH cfg Tbl.empty ops))) root' t =
+          (tagLookup (runH cfg Tbl.empty ops).tags t).bind (C01.read (runH cfg Tbl.empty ops).st.store) := by
+  refine ⟨?_, fun t => ?_⟩
+  · rw [(copy_tags_equal _ root root').1, tagsAt_flatten]
+  · have hg : tagGet (copy root root' (flatten root (runH cfg Tbl.empty ops))) root' t =
+        tagLookup (runH cfg Tbl.empty ops).tags t := by
+      rw [(copy_tags_equal _ root root').2.1 t, tagGet_flatten]
+    refine ⟨hg, ?_⟩
+    unfold readTag
+    rw [hg]
+    cases tagLookup (runH cfg Tbl.empty ops).tags t with
+    | none => rfl
+    | some v => exact (copy_of_history_reads_equal cfg ops root root' v).1
+
 /-- the copy of a table IS that table written at the new root, as far as any lookup below the new root can tell: the
     history may simply go on there -/
 theorem copy_is_the_table_elsewhere (root root' : Root) (t : Tbl) :
@@ -241,6 +262,30 @@ theorem based_file_location (root : Root) (b : Bases) (p : Path) (bid : Nat) (bp
   cases p with
   | ver n => simp [baseIdOf] at h
   | file c id sub => simp [resolve, h, classDir, ht, hr, relSegs]
+
+/-- **clone_points_into_source.**  `Manifest::shallow_clone` of a base-free version of the table at `src`: whatever root
+    the cloned manifest is opened at — the clone's own directory or ANY copy of it — every data file, deletion file and
+    index file it names is resolved to `src/<DIR>/<file>`, the source root's own file.  (Only the transaction file and the
+    manifest itself are the clone's.)  So a copy of a shallow clone depends on the source exactly like the clone does. -/
+theorem clone_points_into_source (src anyRoot : Root) (m : Manifest) (b : Bases) (hnb : usesNoBase m b = true)
+    (c : Cls) (id sub : Nat) (hc : c ≠ .txn) (hp : Path.file c id sub ∈ m.refs) :
+    resolve anyRoot (cloneBases src m b) (.file c id sub) = some (src ++ relSegs (.file c id sub)) := by
+  obtain ⟨nid, ht, hd, hx, hi⟩ := cloneBases_table src m b
+  have hnone : baseIdOf b (.file c id sub) = none := by
+    have := (List.all_eq_true.1 hnb) _ hp
+    simpa using this
+  apply based_file_location anyRoot (cloneBases src m b) (.file c id sub) nid ⟨src, true⟩ _ ht rfl
+  cases c with
+  | txn => exact absurd rfl hc
+  | data =>
+    show lookup (cloneBases src m b).dataBase id = some nid
+    rw [hd]; exact lookup_fillBase _ _ _ _ hnone (mem_refs_data m id sub hp)
+  | del =>
+    show lookup (cloneBases src m b).delBase id = some nid
+    rw [hx]; exact lookup_fillBase _ _ _ _ hnone (mem_refs_del m id sub hp)
+  | idx =>
+    show lookup (cloneBases src m b).idxBase id = some nid
+    rw [hi]; exact lookup_idxBase _ _ _ (mem_refs_idx m id sub hp)
 
 def rootA : Root := [.lit "A".toList]
 def rootC : Root := [.lit "C".toList]
